@@ -1,6 +1,7 @@
 package main
 
 import (
+	"fmt"
 	"context"
 	"crypto/rand"
 	"encoding/json"
@@ -48,8 +49,11 @@ type WebCfg struct {
 func init() {
 	// the file session store writes to os.TempDir(): keep it inside the build directory
 	if d := os.Getenv("VERIF_BUILD_DIR"); d != "" {
-		os.MkdirAll(d+"/tmp", 0o755)
-		os.Setenv("TMPDIR", d+"/tmp")
+		// one directory per worker process: C13's orphaned-session case deletes session files,
+		// which must never be those of another shard
+		t := fmt.Sprintf("%s/tmp/p%d", d, os.Getpid())
+		os.MkdirAll(t, 0o755)
+		os.Setenv("TMPDIR", t)
 	}
 }
 
